@@ -231,7 +231,11 @@ func spell(rt *rapid.T, name string) string {
 }
 
 func genCall(rt *rapid.T) callCase {
-	c := callCase{ep: rapid.SampledFrom(endpoints).Draw(rt, "endpoint"), codec: rapid.SampledFrom([]string{"default", "simple", "bigint"}).Draw(rt, "codec")}
+	return genCallFor(rt, rapid.SampledFrom(endpoints).Draw(rt, "endpoint"))
+}
+
+func genCallFor(rt *rapid.T, ep *endpoint) callCase {
+	c := callCase{ep: ep, codec: rapid.SampledFrom([]string{"default", "simple", "bigint"}).Draw(rt, "codec")}
 	c.f = rapid.SampledFrom(svc.Catalogue).Draw(rt, "fn")
 	n := len(c.f.In)
 	count := n
@@ -283,6 +287,9 @@ func (c callCase) String() string {
 			s = s[:100] + "…"
 		}
 		a = append(a, s)
+	}
+	if c.ep == nil {
+		return fmt.Sprintf("%s %s(%s) expect=%s", c.mode, c.name, strings.Join(a, ", "), c.outcome)
 	}
 	return fmt.Sprintf("%s pool=%v codec=%s %s %s(%s) expect=%s", c.ep.kind, c.ep.pool, c.codec, c.mode, c.name, strings.Join(a, ", "), c.outcome)
 }
@@ -359,14 +366,16 @@ func eq(want, got reflect.Value) string {
 	return ref.Diff(a, b, ref.Options{NilIsEmpty: true})
 }
 
-func check(c callCase) string {
+func check(c callCase) string { return checkWith(c, c.remote) }
+
+func checkWith(c callCase, remote func() remoteResult) string {
 	callMu.Lock()
 	defer callMu.Unlock()
 	// the local call first: the oracle
 	svc.Rec.Take()
 	lvals, lerr, lpanic := c.f.Local(c.args)
 	localCalls := svc.Rec.Take()
-	r := c.remote()
+	r := remote()
 	time.Sleep(0)
 	calls := svc.Rec.Take()
 	if len(calls) == 0 && r.err != nil && strings.Contains(r.err.Error(), "is out of range [0, 9999]") {
